@@ -79,6 +79,10 @@ class DevState:
                               tag=rng.choice([0x30, 0x30, 0x31]), junk=rb(rng.choice([0, 0, 3]))),
                    "msg": rb(rng.randrange(20, 120)), "hash": rb(32), "pub": b"\x04" + rb(64)}
         self.sig = (rb(rng.randrange(1, 34)), rb(rng.randrange(1, 34)))
+        # the UI holds a heartbeat of its own (its own key, message and signature)
+        self.ui_hb = {"sig": der(rb(rng.randrange(1, 34)), rb(rng.randrange(1, 34)),
+                                 tag=rng.choice([0x30, 0x30, 0x31]), junk=rb(rng.choice([0, 0, 3]))),
+                      "msg": rb(rng.randrange(20, 120)), "hash": rb(32), "pub": b"\x04" + rb(64)}
 
 
 def strip_zeros(b):
@@ -197,7 +201,7 @@ class PowDevice:
         return ("w", 0x6D00)
 
     def heartbeat(self, a):
-        hb = self.s.hb
+        hb = self.s.ui_hb if self.s.mode in (MODE_BOOTLOADER, MODE_UI_HB) else self.s.hb
         op = a[2]
         if op == 0x01:
             self.received.append(("ud", a[3:]))
